@@ -31,6 +31,7 @@ type c14Case struct {
 	Threads int            `json:"threads"`
 	Ops     [][][2]int     `json:"ops"` // per goroutine: (expression index, node index into doc.All)
 	Rounds  int            `json:"rounds"`
+	Cold    bool           `json:"cold,omitempty"` // the goroutines share freshly built expressions that were never executed serially
 }
 
 var c14Lib = reg("C14", "c14-concurrent", checkC14)
@@ -87,6 +88,17 @@ func checkC14(c *c14Case) error {
 			} else {
 				serial[op] = snapshotResult(r)
 			}
+		}
+	}
+	if c.Cold {
+		// lazily initialised state in a compiled expression races on its first
+		// use: hand the goroutines expressions nobody has executed yet
+		for i, text := range c.Exprs {
+			g, err := safeBuild(text)
+			if err != nil {
+				return fmt.Errorf("BuildExpr(%q) failed the second time: %v", text, err)
+			}
+			exprs[i] = &g
 		}
 	}
 	noteCurrent("C14", "c14-concurrent", c)
@@ -248,7 +260,7 @@ func TestC14(t *testing.T) {
 		doc := xmodel.Build(ev)
 		elems, attrs, _ := docNames(doc)
 		g := &xast.G{T: t, Env: xast.GenEnv{ElemNames: queryable(elems), AttrNames: queryable(attrs), Prefixes: []string{"x", "y"}, NumVars: []string{"n"}, StrVars: []string{"s"}, NodeVars: []string{"v"}, NoLang: true}}
-		c := &c14Case{Events: ev, Threads: rapid.IntRange(2, 16).Draw(t, "threads"), Rounds: rapid.IntRange(1, 4).Draw(t, "rounds")}
+		c := &c14Case{Events: ev, Threads: rapid.IntRange(2, 16).Draw(t, "threads"), Rounds: rapid.IntRange(1, 4).Draw(t, "rounds"), Cold: rapid.Bool().Draw(t, "cold")}
 		fixed := []string{"$v | //a", "//a | $v", "$v | $v", "$v | /nope", "($v | //b)[1]", "$v/..", "$v[last()]", "count($v | //b)", "//*/ancestor::*", "//@*/..", "$v//text()", "//a[position() = last()]", "sum(//a) + count($v)"}
 		for i, n := 0, rapid.IntRange(2, 6).Draw(t, "nExprs"); i < n; i++ {
 			if rapid.IntRange(0, 2).Draw(t, "fixedExpr") != 0 {
